@@ -197,7 +197,7 @@ def gen_cases(rng, tier, shard, nshards):
                'kind': rng.choice(['words', 'words', 'words', 'string', 'single']),
                'net': rng.choice(['main', 'main', 'regtest']), 'use': rng.randrange(rg)}
         yield {'fam': 'stretch', 'seed': rng.getrandbits(48), 'count': 6}
-        if rnd % 3 == 0:
+        if rnd % 4 == 0:
             gap = lambda: rng.choice([1, 1, 2, 3, 3, 6, 6, 20])  # noqa: E731
             yield {'fam': 'shared', 'mseed': rng.getrandbits(48), 'net': rng.choice(['main', 'main', 'regtest']),
                    'accts': [[rng.choice(['words', 'words', 'words', 'string', 'single', 'xpub'])] +
@@ -1080,7 +1080,9 @@ def check_shared_ledger(rec, case):
     def ref_chain(a, c, count):
         if specs[a]['gaps'] is None:
             return [[0, ids[a], roots[a].pub_bytes.hex()]][:count]
-        parent, rows = cache.setdefault((a, c), (roots[a].neuter().ckd_pub(c), []))
+        if (a, c) not in cache:
+            cache[a, c] = (roots[a].neuter().ckd_pub(c), [])
+        parent, rows = cache[a, c]
         for n in range(len(rows), count):
             node = parent.ckd_pub(n)
             rows.append([n, ref_address(net, node.pub_bytes), node.pub_bytes.hex()])
@@ -1103,6 +1105,7 @@ def check_shared_ledger(rec, case):
         rec.violation('C06/K6/shared-ledger/account-root', f'account ids/xpubs {t["ids"]} {t["xpubs"]} != reference {ids} {xpubs}',
                       witness)
         return
+
     def describe(i):
         op = ops[i]
         return (f'step {i}: ensure_address_gap of account {op["a"]}' if op['op'] == 'ensure' else
@@ -1113,10 +1116,11 @@ def check_shared_ledger(rec, case):
     for i, (op, step) in enumerate(zip(ops, t['steps'])):
         if op['op'] == 'ensure':
             length, usedix = op['length'], op['used']
+            if any(usedix.values()):
+                rec.hit('K6.shared.after_use_checked')
         else:
             usedix = dict(usedix)
             usedix[f'{op["a"]}/{op["c"]}'] = sorted(set(usedix[f'{op["a"]}/{op["c"]}']) | {op['j']})
-            rec.hit('K6.shared.after_use_checked')
         rec.hit('K6.shared.step_checked')
         w2 = dict(witness, step=i, operation=describe(i), history=[describe(x) for x in range(i + 1)])
         want_rows = []
@@ -1151,17 +1155,19 @@ def check_shared_ledger(rec, case):
             return
         if op['op'] == 'ensure':
             a = op['a']
-            single = specs[a]['gaps'] is None
             want_ret = [ref_chain(a, c, length[f'{a}/{c}'])[n][1] for c in (0, 1) for n in op['new'][c]]
             if sorted(step['returned']) != sorted(want_ret):
                 rec.violation('C06/K6/shared-ledger/returned-new-addresses',
                               f'{describe(i)} returned {step["returned"]}, reference {want_ret}',
                               dict(w2, lbry=step['returned'], reference=want_ret))
                 return
+    privchains = {}
     for a, chain, n, address, pub_hex, owner, priv_hex, kaddr in t['lookups']:
         rec.hit('K6.shared.key_lookup_checked')
         single = specs[a]['gaps'] is None
-        node = roots[a] if single else roots[a].ckd_priv(chain).ckd_priv(n)
+        if not single and (a, chain) not in privchains:
+            privchains[a, chain] = roots[a].ckd_priv(chain)
+        node = roots[a] if single else privchains[a, chain].ckd_priv(n)
         w2 = dict(witness, account=a, chain=chain, n=n, address=address)
         if pub_hex != node.pub_bytes.hex() or owner != a:
             rec.violation('C06/K6/shared-ledger/public-key-for-address',
@@ -1213,8 +1219,9 @@ def check_passphrase_forms(rec, lb, r, mn):
         rec.hit('K6.passphrase_form.' + f)
         if got != base:
             rec.violation(f'C06/K6/same-passphrase-other-seed/{f.lower()}',
-                          f'mnemonic_to_seed({mn!r}, passphrase) differs between the NFC spelling {forms["NFC"]!r} and the {f} spelling '
-                          f'{forms[f].encode("unicode_escape").decode()!r} of the same passphrase: {base.hex()[:16]}.. != {got.hex()[:16]}..',
+                          f'mnemonic_to_seed({mn!r}, passphrase) differs between the NFC spelling {forms["NFC"]!r} and the {f} '
+                          f'spelling {forms[f].encode("unicode_escape").decode()!r} of the same passphrase: {base.hex()[:16]}.. != '
+                          f'{got.hex()[:16]}..',
                           dict(witness, form=f, seed_nfc=base.hex(), seed_other=got.hex()))
             return
     # the account key of a password protected seed (hence every address) equally does not depend on the form
@@ -1237,6 +1244,8 @@ def check_passphrase_forms(rec, lb, r, mn):
                       f'stretched with its NFC spelling is {want}', dict(witness, form=f, lbry=got, reference=want))
         return
     # observed, not judged: capitals / white space inside a passphrase
+    if r.random() < 0.5:
+        return
     how, spelled = r.choice([('capitals', forms['NFC'].upper()), ('double-blank', forms['NFC'].replace(' ', '  ') + ' '),
                              ('surrounding-blanks', ' ' + forms['NFC'] + '\n')])
     try:
